@@ -2596,15 +2596,15 @@ def l_in(info, a, b):
     return e
 
 def cmpxchg(info, a, b):
+    # compare the accumulator with the destination (flags as for cmp); equal: destination = source,
+    # different: accumulator = destination
     e = []
     c = eax
-    if isinstance(b, ExprSlice): c = ExprSlice(c,b.start,b.stop)
-    cond = a-c
-    e.append(ExprAff(zf, ExprCond(cond,
-                                 ExprInt_from(zf, 0),
-                                 ExprInt_from(zf, 1))))
+    if a.get_size() != 32: c = ExprSlice(c, 0, a.get_size())
+    cond = c-a
+    e += l_cmp(info, c, a)
     e.append(ExprAff(c, ExprCond(cond,
-                                 b,
+                                 a,
                                  c)
                      ))
     e.append(ExprAff(a, ExprCond(cond,
